@@ -9,7 +9,8 @@ import sys
 import lib
 
 SYM = {"a": b"a", "sp": b" ", "tab": b"\t", "nl": b"\n", "sq": b"'", "dq": b'"', "bs": b"\\", "dollar": b"$", "hash": b"#", "tilde": b"~", "star": b"*", "eq": b"=",
-       "c01": b"\x01", "del": b"\x7f", "zdot": "ż".encode(), "fffd": "\ufffd".encode(), "xff": b"\xff", "smalltilde": "\u02dc".encode(), "excl": b"!", "semi": b";"}
+       "c01": b"\x01", "del": b"\x7f", "zdot": "ż".encode(), "fffd": "\ufffd".encode(), "xff": b"\xff", "smalltilde": "\u02dc".encode(), "excl": b"!", "semi": b";",
+       "nbsp": "\u00a0".encode(), "ideosp": "\u3000".encode()}
 ORDER = sorted(SYM)
 
 
